@@ -211,3 +211,31 @@ Theorem C03_reencoding_without_the_hypothesis : forall pf pretty v d,
   parse_value (render pf pretty 0 v) = Ok d -> d = unsign v /\ cmp_value d v = Eq /\ (d = v <-> unsigned_ints v = true).
 Proof. exact reencode_parsed_rendering_any. Qed.
 Print Assumptions C03_reencoding_without_the_hypothesis.
+
+(* an argument that is not JSONB (first byte none of 0x80 / 0x40 / 0x20) is not rendered: the empty input gives "null",
+   any other goes through String::from_utf8_lossy (each ill-formed UTF-8 sequence becomes U+FFFD), which changes nothing in
+   valid UTF-8 *)
+From JB Require TextBinProofs.
+Theorem C03_argument_that_is_not_jsonb : forall pf pretty t, is_jsonb t = false ->
+  to_text_w pf pretty t = Ok (match t with [] => NULL_TEXT | _ => Utf8.lossy t end).
+Proof. exact TextBinProofs.to_text_not_jsonb. Qed.
+Print Assumptions C03_argument_that_is_not_jsonb.
+Theorem C03_lossy_keeps_valid_utf8 : forall s, Utf8.utf8_valid s = true -> Utf8.lossy s = s.
+Proof. exact lossy_valid. Qed.
+Print Assumptions C03_lossy_keeps_valid_utf8.
+Example C03_lossy_example : to_string_w [34; 255; 34] = Ok [34; 239; 191; 189; 34].
+Proof. vm_compute. reflexivity. Qed.
+
+(* M6 (second review): the fuel the model passes is never what decides an answer, on ARBITRARY inputs -- also for the loops
+   whose exhaustion is an ordinary value (None, Ok None, Ok buf, PErr, the input itself), about which `<> Err EFuel` says
+   nothing: any fuel above the one the model passes gives the same answer (FuelIndep.v) *)
+From JB Require FuelIndep.
+Theorem C03_fuel_is_never_decisive :
+  (forall pf V pretty k, (length V < k)%nat -> RenderWalk.container_str_w V pretty (RenderWalk.scalar_str_w pf V pretty k) 0 0 = RenderWalk.render_w pf V pretty) /\
+  (forall pf V pretty k ind j v, (length V < k)%nat -> j + 4 <= v -> RenderWalk.scalar_str_w pf V pretty k ind j v = RenderWalk.scalar_str_w pf V pretty (S (length V)) ind j v) /\
+  (forall (V : list N) pretty sc k ind i len j v, (forall ind j v r, sc ind j v = Ok r -> j + 4 <= lenN V) -> j + 4 * (len - i) <= v -> (length V < k)%nat -> RenderWalk.arr_str_loop pretty sc k ind i len j v = RenderWalk.arr_str_loop pretty sc (S (length V)) ind i len j v) /\
+  (forall k V i stop last, (length V < k)%nat -> RenderWalk.esc_index_loop k V i stop last = RenderWalk.esc_index_loop (S (length V)) V i stop last) /\
+  (forall k bs i len j, (length bs < k)%nat -> Walk.rd_words k bs i len j = Walk.rd_words (S (length bs)) bs i len j) /\
+  (forall k n, (40 <= k)%nat -> n < two64 -> Num.digits_fuel k n [] = Num.dec_digits n).
+Proof. split; [exact FuelIndep.render_w_any_fuel|split; [exact FuelIndep.scalar_str_w_any_fuel|split; [exact FuelIndep.arr_str_loop_any_fuel|split; [exact FuelIndep.esc_index_loop_any_fuel|split; [exact FuelIndep.rd_words_any_fuel|exact FuelIndep.dec_digits_any_fuel_u64]]]]]. Qed.
+Print Assumptions C03_fuel_is_never_decisive.
